@@ -146,6 +146,14 @@ func vfLkStep(oracle int, nops int) {
 		W = vfChoice("W", 3)
 	}
 	st := vfBuildState(env, key, H, W, 0, 1)
+	if H == 3 && W == 0 && vfChoice("tombstone", 2) == 1 {
+		// the youngest holder is released while an older queued holder stays: its Lock object remains
+		// in the holder queue as a released entry (RemoveLock only pops released entries from the head)
+		u := env.newCmd(protocol.COMMAND_UNLOCK, key, vfLockId(3))
+		env.unlock(0, u)
+		vfAssume(len(vfHolders(st.m)) == 2)
+		vfReach("tombstone")
+	}
 	pre := vfTakeSnap(st.m)
 	nReplies := len(env.replies)
 	state := env.db.states[0]
